@@ -58,6 +58,9 @@ type Disk struct {
 	Ops       []DiskOp
 	// FailKey, if set, makes ops on matching keys fail (deterministic faults).
 	Reads, Writes int
+	// FailNext makes the next N faultable operations fail with err-na when
+	// no scheduler is in control (single-threaded storage harnesses).
+	FailNext int
 }
 
 func NewDisk(s *Sim) *Disk {
@@ -86,6 +89,9 @@ func (d *Disk) gate(ctx context.Context, op, key string, faultable bool) (Fault,
 	f := FaultNone
 	if s := d.sim; s != nil && s.Controlled() {
 		f = s.Gate("disk", op+" "+key, faultable)
+	} else if d.FailNext > 0 && faultable {
+		d.FailNext--
+		f = FaultErrNA
 	}
 	if d.RecordOps {
 		d.mu.Lock()
